@@ -546,8 +546,14 @@ impl MultiFileIterator {
             Box::new(BufReader::new(file))
         };
 
-        // Extract sample name from filename
-        let sample_name = file_path
+        // Extract sample name from filename. A .gz file is named like the plain file it holds:
+        // drop the compression suffix first, so both presentations give the same sample name.
+        let uncompressed_name = if file_path.extension().and_then(|s| s.to_str()) == Some("gz") {
+            file_path.file_stem().map(Path::new).unwrap_or(file_path)
+        } else {
+            file_path
+        };
+        let sample_name = uncompressed_name
             .file_stem()
             .and_then(|s| s.to_str())
             .map(|s| {
